@@ -63,22 +63,35 @@ fn image_files(backend: &str, from: &std::path::Path, to: &std::path::Path) -> R
 }
 
 async fn real_listing<S: datacake_eventual_consistency::Storage>(group: &datacake_eventual_consistency::verif::KeyspaceGroup<S>, storage: &S, ks: &str) -> Result<(Listing, Listing), String> {
+    // The real backends answer from their own threads, so the keyspace actor can run between the
+    // two reads (the group's periodic purge pass fires once right after start-up, for one): the
+    // set is read before and after the store, and only a pair with an unchanged set is judged.
     let mb = group.get_or_create_keyspace(ks).await;
-    let bytes = mb.send(datacake_eventual_consistency::verif::Serialize).await.map_err(|e| e.to_string())?;
-    let set = decode_set(&bytes)?;
-    let sl = set_listing(&set);
-    let mut live = Vec::new();
-    let mut dead = Vec::new();
-    for (k, t, tomb) in storage.iter_metadata(ks).await.map_err(|e| e.to_string())? {
-        if tomb {
-            dead.push((k, t));
-        } else {
-            live.push((k, t));
+    let mut last: Option<(Listing, Listing)> = None;
+    for _ in 0..10 {
+        let bytes = mb.send(datacake_eventual_consistency::verif::Serialize).await.map_err(|e| e.to_string())?;
+        let before = set_listing(&decode_set(&bytes)?);
+        let mut live = Vec::new();
+        let mut dead = Vec::new();
+        for (k, t, tomb) in storage.iter_metadata(ks).await.map_err(|e| e.to_string())? {
+            if tomb {
+                dead.push((k, t));
+            } else {
+                live.push((k, t));
+            }
         }
+        live.sort();
+        dead.sort();
+        let bytes = mb.send(datacake_eventual_consistency::verif::Serialize).await.map_err(|e| e.to_string())?;
+        let after = set_listing(&decode_set(&bytes)?);
+        let stable = before == after;
+        last = Some((after, (live, dead)));
+        if stable {
+            break;
+        }
+        tokio::time::sleep(std::time::Duration::from_millis(2)).await;
     }
-    live.sort();
-    dead.sort();
-    Ok((sl, (live, dead)))
+    last.ok_or_else(|| "harness: no listing".to_string())
 }
 
 async fn real_incarnation<O: super::c17::Opener>(sc: &RealScenario, dir: &std::path::Path, image_to: Option<&std::path::Path>, boots: usize, mut next: usize, stop_at: usize, out: &mut Outcome, tr: &mut Fnv) -> Result<(std::sync::Arc<O::S>, usize), String>
@@ -103,7 +116,7 @@ where
             if set.1 != store.1 {
                 out.violate(format!("C07/{b}/rebuilt-tombstones-differ-from-store"), format!("after restart #{boots}: keyspace {ks}: rebuilt set tombstones {} vs {b} rows {}", fmt_list(&set.1), fmt_list(&store.1)));
             }
-            tr.str(&ks).u64(set.0.len() as u64).u64(set.1.len() as u64);
+            tr.str(&ks);
         }
     }
     while next < sc.events.len() && next < stop_at {
@@ -165,6 +178,13 @@ where
         closer.block_on(O::close(storage));
         if let Some(img) = image {
             dir = img;
+        } else if O::NAME == "lmdb" && boots % 2 == 1 && boots <= stops.len() {
+            // clean stop on LMDB: the environment stays open in this process (see
+            // c17::OLmdb::close), so every other restart runs on a copy of the files, the way a
+            // new process would find them; the others reopen the same path
+            let next_dir = root.join(format!("c{boots}"));
+            image_files("lmdb", &dir, &next_dir).map_err(|e| format!("harness: copying the files failed: {e}"))?;
+            dir = next_dir;
         }
         if boots > stops.len() {
             break;
@@ -440,7 +460,7 @@ impl Check for C07 {
                 spread_hours: rng.gen_bool(0.5),
             };
             let groups = rng.gen_range(3..=14);
-            let events: Vec<Vec<Req>> = gen_history(&mut rng, groups, &cfg, 0.0).into_iter().map(|g| g.into_iter().map(|mut r| { r.route = "actor".into(); r }).collect()).collect();
+            let events: Vec<Vec<Req>> = gen_history(&mut rng, groups, &cfg, 0.0).into_iter().map(|g| g.into_iter().map(|mut r| { r.route = "actor".into(); if r.kind == "idle_hour" { r.kind = "purge".into(); } r }).collect()).collect();
             let stops: Vec<usize> = (0..rng.gen_range(1..=2)).map(|_| rng.gen_range(1..=groups)).collect();
             let sc = RealScenario { backend: if ordinal % 2 == 0 { "sqlite" } else { "lmdb" }.to_string(), base_ms: cfg.base_ms, events, stops, kill: rng.gen_bool(0.4) };
             return serde_json::json!({ "real": sc });
@@ -472,6 +492,10 @@ impl Check for C07 {
         sc.crash = mk(&mut rng);
         sc.crash2 = Some(mk(&mut rng));
         serde_json::to_value(sc).unwrap()
+    }
+    fn isolate(&self, scenario: &Value) -> bool {
+        // LMDB environments stay open until the process ends (see c17::OLmdb::close)
+        scenario.get("real").and_then(|r| r.get("backend")).and_then(|b| b.as_str()) == Some("lmdb")
     }
     fn execute(&self, scenario: &Value) -> Outcome {
         if let Some(r) = scenario.get("real") {
